@@ -72,6 +72,18 @@ Fixpoint isort (l : list bytes) : list bytes :=
 (* RegisteredDecorationNames: the keys, sorted *)
 Definition names (reg : registry) : list bytes := isort (map fst reg).
 
+(* auto.ListStyles (modelled here because C17's histories interleave it with
+   the registry's own listing):
+     l := decoration.RegisteredDecorationNames(); l = append(l, "csv", "html", "json", "markdown"); sort.Strings(l) *)
+Local Open Scope N_scope.
+Definition s_csv : bytes := [99;115;118].
+Definition s_html : bytes := [104;116;109;108].
+Definition s_markdown : bytes := [109;97;114;107;100;111;119;110].
+Definition s_json : bytes := [106;115;111;110].
+Local Close Scope N_scope.
+Definition list_styles (reg : registry) : list bytes :=
+  isort (names reg ++ [s_csv; s_html; s_json; s_markdown]).
+
 (* ---- texttable: what matters of a TextTable is its decoration *)
 Record texttable := mkTT { tt_decor : decoration }.
 
@@ -110,8 +122,11 @@ Inductive op :=
 | OReg (n : bytes) (d : decoration)    (* decoration.RegisterDecorationName(n, d) *)
 | ONamed (n : bytes)                   (* decoration.Named(n) *)
 | ONames                               (* decoration.RegisteredDecorationNames() *)
+| OStyles                              (* auto.ListStyles() *)
 | OSet (n : bytes)                     (* tt := texttable.Wrap(t); tt.SetDecorationNamed(n); tt.Render() *)
-| ORender (k : nat).                   (* the k-th table this goroutine made: Render() again *)
+| ORender (k : nat)                    (* the k-th table this goroutine made: Render() again *)
+| OReSet (k : nat) (n : bytes)         (* the k-th table: SetDecorationNamed(n); Render() *)
+| OSetDec (k : nat) (d : decoration).  (* the k-th table: SetDecoration(d); Render() *)
 
 Inductive obs :=
 | VUnit
@@ -122,6 +137,14 @@ Inductive obs :=
 | VNone.                               (* no such table *)
 
 Record gstate := mkG { g_reg : registry; g_tabs : nat -> list texttable }.
+
+(* tabs[k] = v (no change when there is no such table) *)
+Fixpoint set_nth {A} (k : nat) (v : A) (l : list A) : list A :=
+  match l, k with
+  | [], _ => []
+  | _ :: r, 0 => v :: r
+  | x :: r, S j => x :: set_nth j v r
+  end.
 
 Definition upd (f : nat -> list texttable) (g : nat) (v : list texttable) : nat -> list texttable :=
   fun x => if Nat.eqb x g then v else f x.
@@ -135,12 +158,27 @@ Section Step.
     | OReg n d => (mkG (register n d (g_reg st)) (g_tabs st), VUnit)
     | ONamed n => (st, VDec (named (g_reg st) n))
     | ONames => (st, VNames (names (g_reg st)))
+    | OStyles => (st, VNames (list_styles (g_reg st)))
     | OSet n =>
         let '(t1, err) := set_decoration_named (g_reg st) n text_wrap in
         (mkG (g_reg st) (upd (g_tabs st) g (g_tabs st g ++ [t1])), VSet err (text_render body t1))
     | ORender k =>
         match nth_error (g_tabs st g) k with
         | Some t1 => (st, VRender (text_render body t1))
+        | None => (st, VNone)
+        end
+    | OReSet k n =>
+        match nth_error (g_tabs st g) k with
+        | Some t0 =>
+            let '(t1, err) := set_decoration_named (g_reg st) n t0 in
+            (mkG (g_reg st) (upd (g_tabs st) g (set_nth k t1 (g_tabs st g))), VSet err (text_render body t1))
+        | None => (st, VNone)
+        end
+    | OSetDec k d =>
+        match nth_error (g_tabs st g) k with
+        | Some _ =>
+            let t1 := mkTT d in      (* SetDecoration: t.decor = decor *)
+            (mkG (g_reg st) (upd (g_tabs st) g (set_nth k t1 (g_tabs st g))), VRender (text_render body t1))
         | None => (st, VNone)
         end
     end.
